@@ -40,15 +40,15 @@ inductive AxisKind where
   | threshold | obs | fcst | other
   deriving DecidableEq, Repr
 
-/-- the descriptor columns the writers choose (output.py:266-274 for text, 329-333 for csv): `thr` stands
-for `self.thresholds`, `axisDescs` for `data.get_axis_descriptions(self.axis)`.  `Output.csv` has no
-branch for the Obs / Fcst axes. -/
+/-- the descriptor columns the writers choose when `_get_x_y` returned `descs = None` (output.py:266-274
+for text, 329-337 for csv — the same branches in both writers): `thr` stands for `self.thresholds`,
+`axisDescs` for `data.get_axis_descriptions(self.axis)`; `csv` tells which writer is asking. -/
 def selectDescs {κ : Type} (csv : Bool) (ax : AxisKind) (thr : κ) (axisDescs : List (Str × κ)) :
     List (Str × κ) :=
   match ax with
   | .threshold => [("Threshold".toList, thr)]
-  | .obs => if csv then axisDescs else [("Observed".toList, thr)]
-  | .fcst => if csv then axisDescs else [("Forecasted".toList, thr)]
+  | .obs => if csv then [("Observed".toList, thr)] else [("Observed".toList, thr)]
+  | .fcst => if csv then [("Forecasted".toList, thr)] else [("Forecasted".toList, thr)]
   | .other => axisDescs
 
 /-- Python's `str.isspace` for one character (the set `str.strip()` removes) -/
